@@ -71,3 +71,46 @@ Proof.
     change (last (fr_file h :: b :: l) prev) with (last (b :: l) prev).
     apply last_default_indep. discriminate.
 Qed.
+
+(* ---------- the standalone ordinal, the .json default, -trimpath ---------- *)
+
+(* fmt.Sprintf(path, k) is modelled by [subst_d]: it puts k in place of the FIRST "%d". That is the "_%d" constructFilename
+   appended exactly when nothing before it holds a '%' (directory, Filename, test name): the condition under which the model
+   is exact (finding K8 is its failure) *)
+Lemma subst_d_first (pre post k : bytes) :
+  ~ In 37%N pre -> subst_d (pre ++ 37%N :: 100%N :: post) k = pre ++ k ++ post.
+Proof.
+  induction pre as [|c pre IH]; intros Hn.
+  - reflexivity.
+  - cbn [app]. assert (Hc : c <> 37%N) by (intros E; apply Hn; left; now symmetry).
+    assert (Hp : ~ In 37%N pre) by (intros H; apply Hn; now right).
+    unfold subst_d; fold subst_d.
+    destruct c as [|p]; [now rewrite IH|].
+    destruct (N.eq_dec (N.pos p) 37%N) as [E|E]; [contradiction|].
+    (* the pattern 37 :: 100 :: r does not match because the head is not 37 *)
+    destruct p as [p|p|]; try (now rewrite IH);
+    repeat (destruct p as [p|p|]; try (now rewrite IH); try (exfalso; apply E; reflexivity)).
+Qed.
+
+Lemma standalone_file_name c caller test :
+  construct_filename c caller test true =
+  (match c_filename c with [] => replace_byte slash 95%N test | f => f end) ++ B "_%d" ++ snaps_ext ++ c_ext c.
+Proof. unfold construct_filename. destruct (c_filename c); now rewrite <- ?app_assoc. Qed.
+
+(* MatchStandaloneJSON: ".json" exactly when no Ext option was given *)
+Lemma json_ext_default c : c_ext c = [] -> c_ext (json_ext c) = B ".json".
+Proof. intros E. unfold json_ext. now rewrite E. Qed.
+Lemma json_ext_given c : c_ext c <> [] -> json_ext c = c.
+Proof. intros E. unfold json_ext. destruct (c_ext c); [contradiction|reflexivity]. Qed.
+
+(* under -trimpath a relative Dir is kept as it is (it resolves against the working directory): the location no longer
+   depends on the directory of the calling test file, only - for a multi-entry file without Filename - on its base name *)
+Lemma trim_dir_kept c caller test standalone :
+  snapshot_path_gen true c caller test standalone = join2 (c_dir c) (construct_filename c caller test standalone).
+Proof. unfold snapshot_path_gen. now rewrite andb_false_r. Qed.
+Lemma trim_caller_dir_irrelevant c caller1 caller2 test standalone :
+  basename caller1 = basename caller2 ->
+  snapshot_path_gen true c caller1 test standalone = snapshot_path_gen true c caller2 test standalone.
+Proof.
+  intros E. rewrite !trim_dir_kept. f_equal. unfold construct_filename. now rewrite E.
+Qed.
